@@ -297,7 +297,7 @@ def run_check(cfg, prop, tier, seed, workers, replay=None, keep=False):
     env = dict(os.environ)
     env.update(SAN_ENV)
     if flavour == "tsan":
-        env["TSAN_OPTIONS"] = "halt_on_error=0:second_deadlock_stack=1:history_size=4:log_path=%s" % os.path.join(outdir, "tsan")
+        env["TSAN_OPTIONS"] = "halt_on_error=0:exitcode=0:second_deadlock_stack=1:history_size=4:log_path=%s" % os.path.join(outdir, "tsan")   # reports are counted from the log, not from the exit code
     env.update(cfg.get("env", {}))
     nw = 1 if replay else min(workers, cfg.get("max_workers", workers))
     base = ["--engine", engine, "--prop", prop, "--tier", tier, "--seed", str(seed), "--out", outdir]
@@ -413,6 +413,10 @@ def run_check(cfg, prop, tier, seed, workers, replay=None, keep=False):
             if "WARNING: ThreadSanitizer" not in block:
                 continue
             tsan_reports += 1
+            if "/include/nop/" not in block:
+                # a race whose stacks never enter libnop is a defect of the harness, not of the property
+                harness_problems.append("ThreadSanitizer report without any libnop frame (harness race):\n" + block[:1500])
+                continue
             key = sanitizer_key(block) or "tsan:unknown"
             # stack signature without line numbers
             sig = re.sub(r":\d+", "", " ".join(m.group(1) for m in re.finditer(r"#\d+ \S+ in (\S+)", block)))[:400]
